@@ -228,3 +228,7 @@ macro_rules! panic {
 macro_rules! todo {
     ($($t:tt)*) => { $crate::tokens::fmt_shim::panic_shim() };
 }
+// diagnostics printed to stderr/stdout do not influence any result: dropped
+macro_rules! eprintln { ($($t:tt)*) => { () }; }
+macro_rules! eprint { ($($t:tt)*) => { () }; }
+macro_rules! println { ($($t:tt)*) => { () }; }
